@@ -531,9 +531,11 @@ class Axis:
 
     def same_as(self, other):
         """formula: both axes hold the same source indices in the same order"""
-        if len(self.segs) != len(other.segs) or self.perms != other.perms:
+        if len(self.segs) != len(other.segs):
             return False
         cs = [zB(self.n) == zB(other.n)]
+        if self.perms != other.perms:  # different arbitrary bijections agree only on ranges with at most one element
+            cs.append(zB(self.n) <= 1)
         for (a, b), (c, d) in zip(self.segs, other.segs):
             cs += [zB(a) == zB(c), zB(b) == zB(d)]
         r = z3.simplify(z3.And(*cs))
